@@ -83,4 +83,25 @@ def insertOk (top x : Item) (i : Nat) (result : Item) : Bool :=
         | _, _ => false
   | _, _ => false
 
+mutual
+/-- number of maximal structural matches of `p` in `t` (a match is not searched for further matches inside it) -/
+def countMax : Item → Item → Nat
+  | t, p =>
+    if Item.equals t p then 1
+    else match t with
+      | .list xs => countMaxL xs p
+      | _ => 0
+def countMaxL : List Item → Item → Nat
+  | [], _ => 0
+  | x :: xs, p => countMax x p + countMaxL xs p
+end
+
+/-- SUBST replaces ALL and ONLY the structural matches — as an accounting of points: every maximal match (and
+nothing else) is exchanged for the substitute, so `size result + k * size pattern = size target + k * size substitute`
+with `k` the number of maximal matches; with no match the result is the target -/
+def substOk (target sub pat result : Item) : Bool :=
+  let k := countMax target pat
+  result.size + k * pat.size == target.size + k * sub.size
+  && (k != 0 || Item.equals result target || result.show == target.show)
+
 end Pushr.C08
